@@ -1,4 +1,5 @@
 import ScriggoV.Model.TypeCheck
+import ScriggoV.Model.Terminating
 /-! Line protocol of C03: `prog <n> <stmt>…` in prefix notation (see go/props/c03/ast.go).
 Answer: `ok <id>:<type>[:<value>] …` (names in order of declaration), `rej <rule>`,
 `outside <why>`. Anything unparsable → `none` (`bad-op`). -/
@@ -153,11 +154,83 @@ def answer (r : Except Rej Env) : String :=
   | .ok Γ => String.intercalate " " ("ok" :: (Γ.reverse.map (fun (x, e) => showEntry x e)))
   | .error r => if r.isOutside then "outside " ++ r.name else "rej " ++ r.name
 
+/-! `term <n> <stmt>…`: the skeleton of a function body; answer `ok terminating` / `ok falls-off`.
+Statements: `simple ret panic goto fall`, `brk -|<l>`, `cont -|<l>`, `block <n> …`, `ifonly <n> …`,
+`ifelse <n> … <stmt>`, `for <cond 0|1> <range 0|1> <n> …`, `sw <expr|type|select> <dflt 0|1> <k> (<n> …)×k`,
+`lab <l> <stmt>`. -/
+open ScriggoV.Terminating in
+mutual
+def parseT : Nat → List String → Option (TStmt × List String)
+  | 0, _ => none
+  | fuel + 1, toks =>
+    match toks with
+    | "simple" :: rest => some (.simple, rest)
+    | "ret" :: rest => some (.ret, rest)
+    | "panic" :: rest => some (.panicCall, rest)
+    | "goto" :: rest => some (.gotoS, rest)
+    | "fall" :: rest => some (.fall, rest)
+    | "brk" :: "-" :: rest => some (.brk none, rest)
+    | "brk" :: l :: rest => do let n ← l.toNat?; pure (.brk (some n), rest)
+    | "cont" :: "-" :: rest => some (.cont none, rest)
+    | "cont" :: l :: rest => do let n ← l.toNat?; pure (.cont (some n), rest)
+    | "block" :: n :: rest => do
+      let k ← n.toNat?
+      let (ss, rest) ← parseTL fuel k rest
+      pure (.block ss, rest)
+    | "ifonly" :: n :: rest => do
+      let k ← n.toNat?
+      let (ss, rest) ← parseTL fuel k rest
+      pure (.ifOnly ss, rest)
+    | "ifelse" :: n :: rest => do
+      let k ← n.toNat?
+      let (ss, rest) ← parseTL fuel k rest
+      let (e, rest) ← parseT fuel rest
+      pure (.ifElse ss e, rest)
+    | "for" :: c :: r :: n :: rest => do
+      let k ← n.toNat?
+      let (ss, rest) ← parseTL fuel k rest
+      pure (.forS (c == "1") (r == "1") ss, rest)
+    | "sw" :: kind :: d :: n :: rest => do
+      let kd ← match kind with
+        | "expr" => some SwKind.expr | "type" => some SwKind.type | "select" => some SwKind.select | _ => none
+      let k ← n.toNat?
+      let (cs, rest) ← parseTC fuel k rest
+      pure (.sw kd (d == "1") cs, rest)
+    | "lab" :: l :: rest => do
+      let n ← l.toNat?
+      let (s, rest) ← parseT fuel rest
+      pure (.labeled n s, rest)
+    | _ => none
+def parseTL : Nat → Nat → List String → Option (TList × List String)
+  | 0, _, _ => none
+  | _ + 1, 0, toks => some (.nil, toks)
+  | fuel + 1, k + 1, toks => do
+    let (s, rest) ← parseT fuel toks
+    let (ss, rest) ← parseTL fuel k rest
+    pure (.cons s ss, rest)
+def parseTC : Nat → Nat → List String → Option (TClauses × List String)
+  | 0, _, _ => none
+  | _ + 1, 0, toks => some (.nil, toks)
+  | fuel + 1, k + 1, toks =>
+    match toks with
+    | n :: rest => do
+      let m ← n.toNat?
+      let (c, rest) ← parseTL fuel m rest
+      let (cs, rest) ← parseTC fuel k rest
+      pure (.cons c cs, rest)
+    | [] => none
+end
+
 def handle : List String → Option String
   | "prog" :: n :: toks => do
     let k ← n.toNat?
     let ss ← parseStmts k toks
     pure (answer (checkProgram ss))
+  | "term" :: n :: toks => do
+    let k ← n.toNat?
+    let (ss, rest) ← parseTL (2 * toks.length + 4) k toks
+    if !rest.isEmpty then none
+    else pure (if ScriggoV.Terminating.terminatingL ss then "ok terminating" else "ok falls-off")
   | "expr" :: toks => do
     -- one closed expression: type and constant value
     let (e, rest) ← parseExpr (toks.length + 1) toks
